@@ -121,7 +121,10 @@ func newAllowList(k string, raw any, handleKey func(key string, value any) (bool
 			return nil, fmt.Errorf("config `%s` has invalid CIDR: %s. %w", k, rawCIDR, err)
 		}
 
-		ipNet = netip.PrefixFrom(ipNet.Addr().Unmap(), ipNet.Bits())
+		ipNet, err = unmapPrefix(ipNet)
+		if err != nil {
+			return nil, fmt.Errorf("config `%s` has invalid CIDR: %s. %w", k, rawCIDR, err)
+		}
 
 		tree.Insert(ipNet, value)
 
@@ -230,10 +233,28 @@ func getRemoteAllowRanges(c *config.C, k string) (*bart.Table[*AllowList], error
 			return nil, fmt.Errorf("config `%s` has invalid CIDR: %s. %w", k, rawCIDR, err)
 		}
 
-		remoteAllowRanges.Insert(netip.PrefixFrom(ipNet.Addr().Unmap(), ipNet.Bits()), allowList)
+		ipNet, err = unmapPrefix(ipNet)
+		if err != nil {
+			return nil, fmt.Errorf("config `%s` has invalid CIDR: %s. %w", k, rawCIDR, err)
+		}
+
+		remoteAllowRanges.Insert(ipNet, allowList)
 	}
 
 	return remoteAllowRanges, nil
+}
+
+// unmapPrefix turns an IPv4-mapped IPv6 prefix (::ffff:a.b.c.d/n) into the IPv4 prefix it denotes.
+// The prefix length has to be rebased by the 96 mapping bits; keeping it would produce an invalid
+// prefix that is silently dropped on insert. Other prefixes are returned unchanged.
+func unmapPrefix(p netip.Prefix) (netip.Prefix, error) {
+	if !p.Addr().Is4In6() {
+		return p, nil
+	}
+	if p.Bits() < 96 {
+		return p, fmt.Errorf("IPv4-mapped prefix must be at least /96")
+	}
+	return netip.PrefixFrom(p.Addr().Unmap(), p.Bits()-96), nil
 }
 
 func (al *AllowList) Allow(addr netip.Addr) bool {
